@@ -143,7 +143,23 @@ def run_case(case, part):
     else:
         site = build_site(case)
         addrs, port = servers.allocate_addresses(1)
-        srv = servers.Server(sitegen.make_handler(site), addrs, port, delay_seed=case.get('delay_seed', 0),
+        handler = sitegen.make_handler(site)
+        if case.get('flaky'):
+            # some pages answer 503 to their first one or two requests (counted over both runs: the server lives on): a URL
+            # may be waiting for its retry, or be in the middle of it, when the crawler is killed
+            frng = random.Random(case['site_seed'] ^ 0xF1A)
+            pages = sorted(u for u, p in site.pages.items() if p.kind == 'html' and u != site.start)
+            flaky = {u: frng.choice([1, 2]) for u in frng.sample(pages, min(len(pages), max(1, len(pages) // 2)))}
+            plain = handler
+
+            def handler(req, plain=plain, flaky=flaky):
+                url = canon_request(req)
+                if flaky.get(url, 0) > 0:
+                    flaky[url] -= 1
+                    return {'status': 503, 'reason': 'Service Unavailable', 'headers': [('Content-Type', 'text/html')],
+                            'body': b'<html><body>try again</body></html>'}
+                return plain(req)
+        srv = servers.Server(handler, addrs, port, delay_seed=case.get('delay_seed', 0),
                              max_delay=0.003 if case['concurrent'] > 1 else 0).start()
     tmp = tempfile.mkdtemp(prefix='vc03')
     kill = case.get('kill')
@@ -245,7 +261,9 @@ def run_case(case, part):
         except (OSError, ValueError):
             part.violation('resume-run-did-not-finish/' + kind, dict(detail_base, rc=rc2, out=out2[-600:]), replay)
             return None
-        if res2['exit_status'] != 0 or res2['crashed']:
+        if case.get('flaky') and res2['exit_status'] == 8 and not res2['crashed']:
+            part.count('resume_runs_that_met_a_503')        # (exit status 8: a server error occurred in this run; it was retried)
+        elif res2['exit_status'] != 0 or res2['crashed']:
             part.violation('resume-run-exit-status/' + kind, dict(detail_base, exit=res2['exit_status'],
                                                                   log=res2['log'][-600:]), replay)
         refetched = sorted(set(req2) & done_before)
@@ -334,6 +352,8 @@ def main():
         workloads.append(dict(base, db_uri=True, variant='db-uri'))
         workloads.append(dict(base, convert_links=True, variant='convert-links'))
         workloads.append(dict(base, sitemaps=True, variant='sitemaps'))
+        workloads.append(dict(base, flaky=True, variant='flaky', site_seed=rng.randrange(1 << 30) if (check.thorough or check.seed) else 777,
+                              n_pages=6))
         if check.thorough:
             workloads.append(dict(workloads[1], tries=1, db_uri=True, variant='tries1+db-uri'))
         # a recursive FTP crawl of a directory tree (entries of a listing are the children of the directory's URL)
@@ -348,7 +368,7 @@ def main():
                               check.jobs, timeout=900)
         cases = []
         for w, c in zip(workloads, counts):
-            if not c or '_error' in c or c.get('exit') != 0:
+            if not c or '_error' in c or c.get('exit') not in ((0, 8) if w.get('flaky') else (0,)):
                 check.note_inconclusive('counting run failed: {}'.format(str(c)[:300]))
                 continue
             ref = sorted(set(c['requests']))
